@@ -59,5 +59,5 @@ var propSpecs = map[string]PropSpec{
 	"C19": {ID: "C19", Level: "proof", Patterns: modelPkgs},
 	"C20": {ID: "C20", Level: "other", Patterns: modelPkgs,
 		Explanation: "Partial decision by contract proofs on the real code: vapour pressure positive, wet-bulb bisection bracket invariant, depression identity, pointwise data flow per timestep, dew point rising with humidity (relational harness). The ordering claims that need properties of the transcendental formulas themselves (monotonicity of Goff-Gratch, dew point <= dry bulb, finiteness) are not decidable with uninterpreted math functions and are not covered.",
-		NotCovered: []string{"saturation vapour pressure strictly increasing with temperature", "dew point <= dry bulb", "finiteness of all outputs (division by atmPressure - vapourPressure, 17.27 - F)", "observed by a seeding sub-agent, not decided by any contract: at 100 % relative humidity the computed dew point exceeds the dry-bulb temperature by up to 0.0062 degC (the Goff-Gratch vapour pressure and the Magnus inverse are different approximations)"}},
+		NotCovered: []string{"saturation vapour pressure strictly increasing with temperature: only on a 0.001 degC grid (bounded check on the real code, /verif/bounded), not for all reals", "dew point <= dry bulb", "finiteness of all outputs (division by atmPressure - vapourPressure, 17.27 - F): only on the grid of the bounded check", "observed by a seeding sub-agent, not decided by any contract: at 100 % relative humidity the computed dew point exceeds the dry-bulb temperature by up to 0.0062 degC (the Goff-Gratch vapour pressure and the Magnus inverse are different approximations)"}},
 }
